@@ -668,7 +668,7 @@ func (w *world) postRecovery(env *postEnv) (classes []string) {
 			check("after the write of new names")
 		case "restart":
 			_, _, restartFaultPct := w.shutdownOdds()
-			plan := drawShutdownPlan(t, restartFaultPct)
+			plan := drawShutdownPlan(t, restartFaultPct, true)
 			stage := "after a graceful restart"
 			if plan == nil {
 				hist = append(hist, "restart")
